@@ -87,12 +87,28 @@ func c04Decode(cs *core.Case, aspect string, k gen.Kind, in []byte, want rtcp.Pa
 		cs.Fail("panic/Unmarshal", det(core.W{"panic": pan}))
 		return
 	}
-	if derr != nil {
-		cs.Fail(aspect+"/own/rejected", det(core.W{"error": errStr(derr)}), kfs...)
-	} else if !mon.SemEqual(normXR(got), normXR(want)) {
-		cs.Fail(aspect+"/own/fields", det(core.W{"decoded": vdump(got)}), kfs...)
+	// known finding KF3 is attributed only to its exact symptom: the REMB decodes to 2^(exp+23)
+	// and everything else is as expected; rejections and other differences are violations
+	fk := kfs
+	if k == gen.REMB && len(in) >= 20 {
+		fk = without(kfs, "KF3")
+		sym := clonePacket(want).(*rtcp.ReceiverEstimatedMaximumBitrate)
+		sym.Bitrate = math.Float32frombits((uint32(in[17]>>2) + 23 + 127) << 23)
+		for _, id := range kfs {
+			if id == "KF3" {
+				if g, ok := got.(*rtcp.ReceiverEstimatedMaximumBitrate); ok && derr == nil && mon.SemEqual(g, sym) {
+					want = sym
+					cs.Fail(aspect+"/own/fields", det(core.W{"decoded": vdump(got)}), "KF3")
+				}
+			}
+		}
 	}
-	dk := kfs
+	if derr != nil {
+		cs.Fail(aspect+"/own/rejected", det(core.W{"error": errStr(derr)}), fk...)
+	} else if !mon.SemEqual(normXR(got), normXR(want)) {
+		cs.Fail(aspect+"/own/fields", det(core.W{"decoded": vdump(got)}), fk...)
+	}
+	dk := fk
 	if k == gen.SLI {
 		dk = append(append([]string{}, kfs...), "KF1")
 	}
